@@ -25,6 +25,16 @@ def unique_block(C, n):
     return (1 + np.arange(C * n)).reshape(n, C).astype(np.int64)   # (n, C): x[t, c]
 
 
+def file_block(case, C, N):
+    """(N, C) samples of the file a `stream` / `read_dedisp` / `rd_then` case reads: unique values at 32 bits, a
+    fixed aperiodic pattern within the range of the depth for packed files"""
+    nbits = case.get("nbits", 32)
+    if nbits == 32:
+        return unique_block(C, N)
+    t, c = np.meshgrid(np.arange(N), np.arange(C), indexing="ij")
+    return ((7 * c + 3 * t + (c * t) % 5 + (t * t) % 7) % (1 << nbits)).astype(np.int64)
+
+
 class C09(Prop):
     id = "C09"
     rule = ("delay vectors of Header.get_dmdelays for bands of either direction, DMs of either sign and every "
@@ -113,7 +123,11 @@ class C09(Prop):
         dm = rng.choice((0.0, 1.0, 3.5, 10.0, 15.0, 25.0, 40.0, -2.0, -10.0, -15.0))
         ref = rng.choice(("ch1", "ch1", "max", "min", "center", "num", "num-above", "num-below"))
         n = rng.choice((8, 16, 40, 100)) if path not in ("read_dedisp", "rd_then") else rng.choice((1, 2, 3, 8, 16, 40))
-        return {"path": path, "C": C, "foff": foff, "fch1": fch1, "tsamp": tsamp, "dm": dm, "ref": ref, "n": n,
+        nbits = 32
+        if path in ("read_dedisp", "rd_then", "stream") and rng.random() < 0.4:
+            # packed files: a channel is not a whole number of bytes, partial-spectrum reads must stay aligned
+            nbits = rng.choice([b for b in (1, 2, 4, 8) if (C * b) % 8 == 0] or [32])
+        return {"path": path, "C": C, "foff": foff, "fch1": fch1, "tsamp": tsamp, "dm": dm, "ref": ref, "n": n, "nbits": nbits,
                 "ndm": rng.choice((1, 3, 3, 8, 33, 64)), "s": rng.choice((0, 2)), "g": rng.choice((3, 7, 64))}
 
     def corpus(self):
@@ -209,8 +223,8 @@ class C09(Prop):
                 N, s = (n + 6, case["s"]) if path == "stream" else self._rd_geom(case, [int(v) for v in d])
                 if N * C > 60000:
                     return {"skip": True}
-                xx = unique_block(C, N)
-                p = spfiles.write_fil(dd / "in.fil", xx, 32, fch1=case["fch1"], foff=case["foff"], tsamp=case["tsamp"])
+                xx = file_block(case, C, N)
+                p = spfiles.write_fil(dd / "in.fil", xx, case.get("nbits", 32), fch1=case["fch1"], foff=case["foff"], tsamp=case["tsamp"])
                 fil = FilReader(str(p))
                 try:
                     if path == "stream":
@@ -290,7 +304,7 @@ class C09(Prop):
                 want = np.array([[sum(x[c, t + off2 + D[i][c]] for c in range(C)) for t in range(L)] for i in range(len(D))])
         else:
             N, s = (n + 6, case["s"]) if path == "stream" else self._rd_geom(case, d)
-            xx = unique_block(C, N).T.astype(np.float64)
+            xx = file_block(case, C, N).T.astype(np.float64)
             if path == "stream":
                 L = n - md - off
                 want = np.array([[sum(xx[c, s + t + off + d[c]] for c in range(C)) for t in range(L)]])
@@ -335,7 +349,7 @@ class C09(Prop):
             N, s0 = self._rd_geom(case, d)
             if N * C > 4000:
                 return []          # long files: oracle only (the exact-model driver is slow on them)
-            x = unique_block(C, N).T
+            x = file_block(case, C, N).T
             flat = " ".join(str(int(v)) for v in x.ravel())
             return [f"C09 readdedisp {C} {N} 1 {s0} {n} {' '.join(map(str, d))} {flat}"]
         x = unique_block(C, n).T
